@@ -352,7 +352,18 @@ async def drive_real(t, mode, pidx, orders, only_features=None, scenarios=(None,
             protos = list(dict.fromkeys(u["proto"] for i in order for u in units if u["id"] == i))
             scs = scenarios(protos) if callable(scenarios) else scenarios
             for sc in scs:
-                tok = atv.takeover(P(sc[0]), *[iface_cls(i) for i in sc[1]]) if sc else None
+                toks, refused = [], []
+                if sc:
+                    try:
+                        toks.append(atv.takeover(P(sc[0]), *[iface_cls(i) for i in sc[1]]))
+                    except Exception as ex:  # noqa  an observation, not a harness failure: take what is granted
+                        refused.append("%s:%s" % ("+".join(sc[1]), type(ex).__name__))
+                        for i in sc[1]:
+                            try:
+                                toks.append(atv.takeover(P(sc[0]), iface_cls(i)))
+                            except Exception as ex2:  # noqa
+                                refused.append("%s:%s" % (i, type(ex2).__name__))
+                tok = (lambda _t=toks: [x() for x in _t]) if toks else None
                 gate = atv.features.in_state(FeatureState.Available, FeatureName.PlayUrl)
                 for f in t["features"]:
                     if only_features and f["name"] not in only_features:
@@ -361,7 +372,7 @@ async def drive_real(t, mode, pidx, orders, only_features=None, scenarios=(None,
                     info = atv.features.get_feature(getattr(FeatureName, f["name"]))
                     asked = [e[0] for e in log if e[1] == "Features"]
                     rec = {"profile": prof[0], "pidx": pidx, "order": order, "added": [label[i] for i in order],
-                           "holder": [sc[0], list(sc[1])] if sc else None,
+                           "holder": [sc[0], list(sc[1])] if sc else None, "takeover_refused": refused,
                            "feature": f["name"], "index": f["index"], "state": info.state.name,
                            "asked": asked, "gate": gate, "calls": []}
                     out.append(rec)
@@ -397,6 +408,137 @@ async def drive_real(t, mode, pidx, orders, only_features=None, scenarios=(None,
     return out
 
 
+def swap_stream(inst, proto, log):
+    """Stream objects keep their REAL members (they take over through core.takeover before doing anything
+    else); entering one is recorded."""
+    from pyatv import interface
+    cls = type(inst)
+    ns = {}
+    for m, kind in public_members(interface.Stream):
+        if not c01.overrides_mro(cls, interface.Stream, m):
+            continue
+        real = getattr(cls, m)
+        if kind == "async":
+            def mk(real=real, m=m):
+                async def f(self, *a, **k):
+                    log.append((proto, "Stream", m))
+                    return await real(self, *a, **k)
+                return f
+        else:
+            def mk(real=real, m=m):
+                def f(self, *a, **k):
+                    log.append((proto, "Stream", m))
+                    return real(self, *a, **k)
+                return f
+        ns[m] = mk()
+    inst.__class__ = type("Bound" + cls.__name__, (cls,), ns)
+
+
+async def drive_bound(t, pidx, service_sets, only_features=None):
+    """The device object assembled the way pyatv.connect() does it - ONE configuration holding all services of
+    the set, every protocol's setup() given core.takeover = partial(atv.takeover, <its protocol>) - from the real
+    objects under one profile.  Stream members run their REAL code (takeover first, then the network, which is
+    not there); everything else records.  Members of reported features of the Stream interface are invoked:
+    any failure but NotSupportedError is fine."""
+    import asyncio
+    from functools import partial
+    from ipaddress import IPv4Address
+    from pyatv import conf, interface
+    from pyatv.const import FeatureName, FeatureState
+    from pyatv.core import CoreStateDispatcher, MutableService, create_core
+    from pyatv.core.facade import FacadeAppleTV
+    from pyatv.protocols import PROTOCOLS
+    from pyatv.settings import Settings, MrpTunnel
+    c01.quiet()
+    prof = PROFILES[pidx]
+    svcs = profile_services(prof)
+    out = []
+    for S in service_sets:
+        log, tklog, cores = [], [], []
+        srcs = [p for p in PYATV_ORDER if p in S]
+        rec0 = {"profile": prof[0], "pidx": pidx, "services": srcs, "mode": "bound"}
+        try:
+            cfg = conf.AppleTV(IPv4Address("127.0.0.1"), prof[0])
+            for src in srcs:
+                props, cred = svcs[src]
+                cfg.add_service(MutableService("verif-id", P(src), 9, props, credentials=cred))
+            settings = Settings()
+            settings.protocols.airplay.mrp_tunnel = MrpTunnel(prof[7])
+            disp = CoreStateDispatcher()
+            atv = FacadeAppleTV(cfg, None, disp, settings)
+            real_takeover = atv.takeover
+
+            def rec_takeover(protocol, *ifs):
+                tklog.append([protocol.name, [getattr(i, "__name__", str(i)) for i in ifs]])
+                return real_takeover(protocol, *ifs)
+            added = []
+            for src in srcs:
+                core = await create_core(cfg, cfg.get_service(P(src)), settings=settings, device_listener=atv,
+                                         core_dispatcher=disp, takeover_method=partial(rec_takeover, P(src)))
+                cores.append(core)
+                for sd in PROTOCOLS[P(src)].setup(core):
+                    p = sd.protocol.name
+                    for k, inst in sd.interfaces.items():
+                        if k is interface.Features:
+                            swap_features(inst, p, log)
+                        elif k is interface.Stream:
+                            swap_stream(inst, p, log)
+                        else:
+                            swap_class(inst, k, p, k.__name__, log)
+                    atv.add_protocol(await offline(sd))
+                    added.append("%s>%s" % (src, p))
+            await atv.connect()
+        except Exception as ex:  # noqa  the real set-up code failed: an observation
+            out.append(dict(rec0, setup_exception="%s: %s" % (type(ex).__name__, ex), calls=[], feature=None, state=None,
+                            added=[], holder=None, gate=None, asked=[]))
+            for c in cores:
+                try:
+                    await c.session_manager.close()
+                except Exception:  # noqa
+                    pass
+            continue
+        gate = atv.features.in_state(FeatureState.Available, FeatureName.PlayUrl)
+        for f in t["features"]:
+            mems = [(i, m) for (i, m) in dict.fromkeys(map(tuple, f["members"])) if i == "Stream"]
+            if not mems or (only_features and f["name"] not in only_features):
+                continue
+            del log[:]
+            info = atv.features.get_feature(getattr(FeatureName, f["name"]))
+            rec = dict(rec0, added=added, holder=None, feature=f["name"], index=f["index"], state=info.state.name,
+                       asked=[e[0] for e in log if e[1] == "Features"], gate=gate, calls=[])
+            out.append(rec)
+            if info.state == FeatureState.Unsupported:
+                continue
+            for (i, m) in mems:
+                base = iface_cls(i)
+                kind = dict(public_members(base))[m]
+                del log[:]
+                del tklog[:]
+                try:
+                    exc = await asyncio.wait_for(c01.invoke(getattr(atv, IACC[i]), m, kind, base), 5)
+                except asyncio.TimeoutError:
+                    exc = "TimeoutError"
+                except BaseException as ex:  # noqa
+                    exc = type(ex).__name__
+                called = [e[0] for e in log if e[1] != "Features"]
+                relay_ok = None
+                if exc == "NotSupportedError" and not called:
+                    try:
+                        atv._interfaces[base].relay(m)
+                        relay_ok = True
+                    except Exception as ex:  # noqa
+                        relay_ok = type(ex).__name__
+                rec["calls"].append({"iface": i, "member": m, "arguments": {}, "holder": None, "take": c01.holder_of(atv, i),
+                                     "called": called, "exc": exc, "relay": relay_ok, "takeovers_requested": list(tklog),
+                                     "takeover_left": {x: c01.holder_of(atv, x) for x in ALL_IFACES if c01.holder_of(atv, x)}})
+        for c in cores:
+            try:
+                await c.session_manager.close()
+            except Exception:  # noqa
+                pass
+    return out
+
+
 def judge(rec):
     """The property text on one (profile, added SetupData, feature): reported => invoking every member the
     feature stands for reaches an implementation, under every takeover holder; NotSupportedError raised by
@@ -405,7 +547,11 @@ def judge(rec):
     for c in rec["calls"]:
         where = "device profile %s, SetupData added %s, takeover %s: features reports %s as %s; arguments %s" % (
             rec["profile"], rec["added"], c["holder"], rec["feature"], rec["state"], c.get("arguments") or "default")
-        if c["exc"] == "NotSupportedError" and not c["called"]:
+        if c["exc"] == "NotSupportedError" and c["called"]:
+            bad.append(("C13:invoke:not-supported:%s" % rec["feature"],
+                        "%s; %s.%s was relayed to %s, whose implementation was entered, but the call failed with NotSupportedError (takeovers requested: %s)"
+                        % (where, c["iface"], c["member"], c["called"], c.get("takeovers_requested")), c))
+        elif c["exc"] == "NotSupportedError" and not c["called"]:
             gated = (c["iface"], c["member"]) == ("Stream", "play_url") and not rec["gate"]
             if c["relay"] is True and gated:
                 continue       # documented feature gate of play_url: PlayUrl is not Available; an implementation exists
@@ -419,7 +565,7 @@ def judge(rec):
                             % (where, c["iface"], c["member"]), c))
         elif c["exc"] is None and not c["called"] and not (c["iface"] == "PushUpdater"):
             bad.append(("C13:invoke:not-routed:%s" % rec["feature"], "%s but %s.%s was executed by nobody" % (where, c["iface"], c["member"]), c))
-        elif c["exc"] not in (None, "NotSupportedError"):
+        elif c["exc"] not in (None, "NotSupportedError") and rec.get("mode") != "bound":
             bad.append(("C13:invoke:unexpected-exception:%s" % rec["feature"], "%s but %s.%s raised %s" % (where, c["iface"], c["member"], c["exc"]), c))
     return bad
 
@@ -489,7 +635,9 @@ def run(ctx):
                 "quick tier: complete for one profile per distinct table set, 5 sampled orders for the others; x every "
                 "FeatureName: answer of features.get_feature, and every member of every reported feature called through the "
                 "device object; once with the real Features objects, once with Features stubs reporting everything "
-                "Available (worst case of the dynamic states); takeover scenarios for the invocations: none, RAOP holding "
+                "Available (worst case of the dynamic states); (a2) per profile, sets of configured services assembled the way "
+                "pyatv.connect does (one configuration, core.takeover = partial(atv.takeover, protocol)), Stream members running "
+                "their real code: stream_file / play_url invoked when reported; takeover scenarios for the invocations: none, RAOP holding "
                 "Audio/Metadata/PushUpdater/RemoteControl (stream_file), AirPlay holding RemoteControl (play_url), a protocol "
                 "holding every interface (thorough: each protocol); (b) random tables "
                 "with stub Features/PushUpdater objects incl. falsy and missing Features objects and duplicate protocols. "
@@ -571,6 +719,38 @@ def run(ctx):
     c01.run_cases_in_coq(ctx, "invoke", HEADER, "nat * list nat * list proto * iface * string * bool * callres", "check_real_invoke",
                          uniq, lambda b: {"case": uniq[b], "profiles": ctx.extra["profiles"]}, per=2000)
     ctx.note("real objects compared %.1fs" % (time.time() - ctx.t0))
+    # ---------------------------------------------------------------- (a2) takeover bound as pyatv.connect binds it, real Stream code
+    embeds = []
+    for pidx, pr in enumerate(t["profiles"]):
+        sets = [S for S in c01.subsets() if "AirPlay" in S or "RAOP" in S]
+        try:
+            recs = vloop.run(drive_bound, t, pidx, sets)
+        except Exception:  # noqa
+            import traceback
+            ctx.tie_broken("driver:bound:" + pr["name"], traceback.format_exc())
+            continue
+        for rec in recs:
+            ctx.traces += 1
+            if rec.get("setup_exception"):
+                ctx.count("bound:setup-exception")
+                ctx.violation("C13:setup:exception", "device profile %s, services %s: setting the device object up the way pyatv.connect does raised %s"
+                              % (rec["profile"], rec["services"], rec["setup_exception"]),
+                              {"kind": "bound", "profile": rec["profile"], "services": rec["services"], "feature": None})
+                continue
+            reported = rec["state"] != "Unsupported"
+            ctx.case(("bound", rec["profile"], tuple(rec["services"]), rec["feature"], rec["state"]), nontrivial=reported,
+                     sample={"mode": "bound", "profile": rec["profile"], "services": rec["services"], "added": rec["added"],
+                             "feature": rec["feature"], "state": rec["state"], "calls": rec["calls"]} if rec["calls"] else None)
+            ctx.count("bound:%s:%s" % (rec["feature"], rec["state"]))
+            if "AirPlay>RAOP" in rec["added"] and rec["profile"] not in embeds:
+                embeds.append(rec["profile"])
+            for c in rec["calls"]:
+                ctx.count("bound-call:%s.%s:%s" % (c["iface"], c["member"], c["exc"]))
+            for key, what, call in judge(rec):
+                ctx.violation(key, what, {"kind": "bound", "profile": rec["profile"], "services": rec["services"], "added": rec["added"],
+                                          "feature": rec["feature"], "state": rec["state"], "call": call})
+    ctx.extra["profiles_where_airplay_embeds_raop"] = embeds
+    ctx.note("bound takeover driven %.1fs" % (time.time() - ctx.t0))
     # ---------------------------------------------------------------- (b) arbitrary tables
     n = 1500 if not ctx.thorough else 20000
     recs = vloop.run(drive_random, ctx.rng.getrandbits(32), n, t["features"])
@@ -610,6 +790,18 @@ def run(ctx):
 async def replay_one(r, t, verbose=True):
     """Re-run one replay dict {profile, added: ["src>proto", ...], feature, mode}; returns list of (key, what)."""
     names = [pr["name"] for pr in t["profiles"]]
+    if r.get("kind") == "bound" and r.get("profile") in names:
+        recs = await drive_bound(t, names.index(r["profile"]), [r["services"]], [r["feature"]] if r.get("feature") else None)
+        out = []
+        for rec in recs:
+            if verbose:
+                print("profile=%s services=%s added=%s feature=%s state=%s calls=%s %s" % (
+                    rec["profile"], rec["services"], rec["added"], rec["feature"], rec["state"], rec["calls"], rec.get("setup_exception") or ""))
+            if rec.get("setup_exception"):
+                out.append(("C13:setup:exception", rec["setup_exception"], None))
+            else:
+                out += judge(rec)
+        return out
     if r.get("profile") not in names:
         return [("C13:replay:unknown-profile", str(r.get("profile")), None)]
     pidx = names.index(r["profile"])
